@@ -45,6 +45,21 @@ CHECKS = {
    "SMT machine (set/get/peek over keys sharing and not sharing a leaf, values {empty, v1, v2}) and MMR machine (add/get/pack/unpack) explored breadth-first to depth 3/5 (quick) and 5/8 (thorough), every transition run on the VM with advice derived from the native pre-state and again as a whole-history run; truncate_stack for every depth 16..48 in four calling situations; memcopy for all (n, read_ptr, write_ptr) in an 8-word window (overlap: frame condition only, the result is unspecified); pipe_* for every word count with correct and wrong commitments; mmr arithmetic helpers on structured inputs.",
    "miden-crypto's Smt/Mmr are the reference; cases the masm documentation marks as unimplemented (leaves with several pairs) are executed, counted and not compared.",
    "DESIGN.md §5 C18"),
+ "C13": ("exploration",
+   "bounded-exhaustive enumeration of MAST shapes x all decision sequences (chosen by the harness) with a depth-first reference stream, plus documented decoder equations on every row pair",
+   "5 610 (quick) directly built MASTs over join/split/loop/call/syscall/dyn with 14 span patterns covering every group/batch fill situation; every decision sequence (both split directions, loops 0..3 iterations, capped at 60 per tree) is supplied as stack inputs and the expected operation stream is generated for exactly those decisions; compared per cycle with the op-bit columns and with VmStateIterator; NOOPs counted against the documented alignment places; block ids nested like a Dyck word; documented in_span / group_count / op-group / op_index equations on every executed row pair; final row carries the program hash; padding rows HALT. The 2 497 assembler-produced programs of P1 + shapes are walked with decisions read from the trace.",
+   "Span streams are derived from the span's own operation groups by the documented decoding procedure (batching is C08's subject).",
+   "DESIGN.md §5 C13"),
+ "C16": ("exploration",
+   "bounded-exhaustive enumeration of limb tuples over boundary alphabets for every exported u64 / u256 procedure on the real VM against native integer arithmetic",
+   "All 29 exported std::math::u64 procedures and all 8 std::math::u256 procedures (export lists read from the loaded library): every operand pair with limbs over a 7-value (quick) / 16-value (thorough) alphabet, every shift/rotation amount 0..63, structured unary values, zero divisors; full final stack compared including 12 sentinel elements below the operands.",
+   "Reference = Rust u64/u128/num-bigint arithmetic; operands outside the limb alphabets are not covered.",
+   "DESIGN.md §5 C16"),
+ "C17": ("exploration",
+   "enumeration of structured finite input sets (all 0/0xFFFFFFFF word patterns, all single-bit and all-but-one-bit inputs, every length for the memory helpers) against the blake3 / sha2 / sha3 crates and Rpo256",
+   "Agreement of every exported procedure of the blake3, sha256, keccak256 and native hashing modules with the reference implementations on the stated input sets, which exercise every input bit position in both polarities; equality on all 2^256 / 2^512 inputs cannot be decided by enumeration and is not claimed.",
+   "Weakest claim of the set by nature of the property: exhaustive only over the stated structured families.",
+   "DESIGN.md §5 C17"),
 }
 NA_REASON = "check not built yet in this round (planned, see DESIGN.md §11); no claim is made"
 m = {
